@@ -106,7 +106,7 @@ MUTS = [
  ("C02", "H_follows_everywhere", F, "        .follow_links(config.follow == Follow::Always)", "        .follow_links(config.follow != Follow::Never)"),
  ("C02", "dangling_not_recovered", EN, "            Err(e) if e.is_not_found() => {", "            Err(e) if e.is_not_found() && e.depth() != Some(0) => {"),
  ("C02", "no_follow_root_links", F, "        .follow_root_links(config.follow != Follow::Never);", "        .follow_root_links(config.follow == Follow::Always);"),
- ("C02", "mindepth_off_by_one", F, "if entry.depth() < config.min_depth || entry.depth() > config.max_depth {", "if entry.depth() < config.min_depth || entry.depth() > config.max_depth.saturating_add(usize::from(config.depth_first && config.min_depth > 0)) {"),
+ ("C02", "mindepth_off_by_one", F, "if entry.depth() < config.min_depth || entry.depth() > config.max_depth {", "if entry.depth() < config.min_depth + usize::from(config.follow == Follow::Always && config.depth_first && config.min_depth > 1) || entry.depth() > config.max_depth {"),
  ("C02", "depth_filter_removed", F, "                if entry.depth() < config.min_depth || entry.depth() > config.max_depth {\n                    continue;\n                }\n", ""),
  # ---- C15
  ("C15", "round_days", T, "        let age_in_days = age_in_seconds / SECONDS_PER_DAY + negative_offset;", "        let age_in_days = (age_in_seconds + SECONDS_PER_DAY / 2) / SECONDS_PER_DAY + negative_offset;"),
